@@ -116,6 +116,17 @@ C23_NumTextDef ==
     /\ Utf8(233) = <<195, 169>> /\ Utf8(26085) = <<230, 151, 165>> /\ Utf8(128512) = <<240, 159, 152, 128>>
     /\ UrlQuote(<<99, 233>>) = <<99, 37, 67, 51, 37, 65, 57>>                 \* "c\u00e9" -> c%C3%A9
     /\ FileSizeOK(1500, FALSE, <<49, 46, 53, 32, 107, 66>>) /\ ~FileSizeOK(1500, TRUE, <<49, 46, 53, 32, 107, 66>>)
+    \* str() of floats: "1.0", "2.5", "-3.7", "0.125", "0.0", "1000.0", "10.05"
+    /\ FloatStr(1000) = <<49, 46, 48>> /\ FloatStr(2500) = <<50, 46, 53>> /\ FloatStr(-3700) = <<45, 51, 46, 55>>
+    /\ FloatStr(125) = <<48, 46, 49, 50, 53>> /\ FloatStr(0) = <<48, 46, 48>>
+    /\ FloatStr(1000000) = <<49, 48, 48, 48, 46, 48>> /\ FloatStr(10050) = <<49, 48, 46, 48, 53>>
+    \* numbers that compare equal are still different texts in a URL: n, n.0 (and True / False for 1 / 0)
+    /\ \A n \in -20..20 : /\ UrlQuote(UrlTextOf(I(n))) # UrlQuote(UrlTextOf([t |-> "f", v |-> 1000 * n]))
+                          /\ UrlQuoteQS(UrlTextOf(I(n))) # UrlQuoteQS(UrlTextOf([t |-> "f", v |-> 1000 * n]))
+                          /\ \A b \in BOOLEAN : UrlQuote(UrlTextOf(B(b))) \notin {UrlQuote(UrlTextOf(I(n))),
+                                                                              UrlQuote(UrlTextOf([t |-> "f", v |-> 1000 * n]))}
+    /\ UrlEncodePairs(<<<<I(1), [t |-> "f", v |-> 1000]>>, <<B(TRUE), NoneV>>>>)
+          = <<49, 61, 49, 46, 48, 38, 84, 114, 117, 101, 61, 78, 111, 110, 101>>     \* 1=1.0&True=None
 \* constant-level facts: checked once when TLC starts
 ASSUME C23_ConvTotal == C23_ConvTotalDef
 ASSUME C23_NumText == C23_NumTextDef
